@@ -5,8 +5,17 @@ VERIF = os.path.dirname(os.path.dirname(os.path.abspath(__file__)))
 LEAN = os.path.join(VERIF, "lean")
 HARNESS = os.path.join(VERIF, "harness")
 BUILD = os.path.join(VERIF, ".build")
-DRIVER = os.path.join(LEAN, ".lake", "build", "bin", "driver")
-HARNESS_BIN = os.path.join(BUILD, "harness")
+REPO = os.path.abspath(os.environ.get("VERIF_REPO", "/repo"))   # scratch worktrees: VERIF_REPO=/tmp/wt ./check ...
+
+# evidence of runs against a scratch worktree never overwrites the committed evidence
+EVDIR = os.path.join(VERIF, "evidence") if REPO == "/repo" else os.path.join(BUILD, "alt-evidence")
+
+def driver_bin(prop):
+    return os.path.join(LEAN, ".lake", "build", "bin", "driver_" + prop.lower())
+
+def harness_bin(prop):
+    tag = "" if REPO == "/repo" else "-" + hashlib.sha1(REPO.encode()).hexdigest()[:8]
+    return os.path.join(BUILD, "bin" + tag, "harness-" + prop.lower())
 KNOWN = os.path.join(VERIF, "known-findings.txt")
 ALLOWED_AXIOMS = {"propext", "Classical.choice", "Quot.sound"}
 FORBIDDEN = re.compile(r"\bsorry\b|\badmit\b|^axiom |native_decide|bv_decide|implemented_by|\bunsafe |maxHeartbeats 0|@\[extern")
@@ -37,11 +46,28 @@ def run(cmd, cwd=None, env=None, timeout=None, stdin=None, stdout=None):
                        stderr=subprocess.STDOUT, text=True)
     return p.returncode, (p.stdout or "")
 
-def build_harness():
-    """Rebuild the Go harness against /repo's current working tree (hooks on: -tags verif)."""
-    with Lock("go"):
+def harness_dir():
+    """The harness module, with its `replace` pointing at REPO (a copy when REPO is a scratch worktree)."""
+    if REPO == "/repo":
         shutil.copyfile("/repo/go.sum", os.path.join(HARNESS, "go.sum"))
-        rc, out = run(["go", "build", "-tags", "verif", "-o", HARNESS_BIN, "."], cwd=HARNESS, env=goenv(), timeout=1200)
+        return HARNESS
+    d = os.path.join(BUILD, "harness-" + hashlib.sha1(REPO.encode()).hexdigest()[:8])
+    shutil.rmtree(d, ignore_errors=True)
+    shutil.copytree(HARNESS, d)
+    gm = open(os.path.join(d, "go.mod")).read().replace("=> /repo", "=> " + REPO)
+    open(os.path.join(d, "go.mod"), "w").write(gm)
+    shutil.copyfile(os.path.join(REPO, "go.sum"), os.path.join(d, "go.sum"))
+    return d
+
+def build_harness(prop, race=False):
+    """Rebuild the property's Go harness against REPO's current working tree (hooks on: -tags verif)."""
+    with Lock("go"):
+        d = harness_dir()
+        binp = harness_bin(prop) + ("-race" if race else "")
+        os.makedirs(os.path.dirname(binp), exist_ok=True)
+        if os.path.exists(binp): os.unlink(binp)   # never run a stale binary
+        cmd = ["go", "build", "-tags", "verif"] + (["-race"] if race else []) + ["-o", binp, "./cmd/" + prop.lower()]
+        rc, out = run(cmd, cwd=d, env=goenv(), timeout=1800)
     return rc == 0, out
 
 def lake_build(targets):
@@ -83,7 +109,9 @@ def lean_sources():
     for root, _, fs in os.walk(os.path.join(LEAN, "Gozod")):
         for f in fs:
             if f.endswith(".lean"): res.append(os.path.join(root, f))
-    res.append(os.path.join(LEAN, "Driver.lean"))
+    for root, _, fs in os.walk(os.path.join(LEAN, "Drv")):
+        for f in fs:
+            if f.endswith(".lean"): res.append(os.path.join(root, f))
     return sorted(res)
 
 def audit_axioms(modules, theorems):
@@ -139,7 +167,7 @@ class Result:
         self.notes = []
 
     def replay_path(self, tag):
-        d = os.path.join(VERIF, "evidence", "replay")
+        d = os.path.join(EVDIR, "replay")
         os.makedirs(d, exist_ok=True)
         return os.path.join(d, "%s-%s-%s.txt" % (self.prop, self.seed, tag))
 
@@ -160,8 +188,8 @@ class Result:
         if self.notes: ev["coverage"]["notes"] = self.notes
         if self.known_hits:
             ev["coverage"]["known_findings_reconfirmed"] = {k: c for k, (w, c) in self.known_hits.items()}
-        os.makedirs(os.path.join(VERIF, "evidence"), exist_ok=True)
-        with open(os.path.join(VERIF, "evidence", self.prop + ".json"), "w") as f:
+        os.makedirs(EVDIR, exist_ok=True)
+        with open(os.path.join(EVDIR, self.prop + ".json"), "w") as f:
             json.dump(ev, f, indent=1, sort_keys=True)
         seen = set()
         for p, suffix in self.violations:
@@ -179,13 +207,13 @@ TRUSTED_BASE = [
     "the Go harness + line protocol + this Python comparer (differential tie between model and /repo)",
 ]
 
-def prove(res, modules, theorems, gen_files=()):
+def prove(res, modules, theorems, driver=True):
     """Build proof modules, audit axioms and forbidden tokens.
     Returns (ok, detail). Fills coverage obligations/discharged."""
-    ok, out = lake_build(modules + ["driver"])
+    ok, out = lake_build(modules + (["driver_" + res.prop.lower()] if driver else []))
     cov = res.coverage
     cov["obligations"] = len(theorems)
-    cov["checker_cmd"] = "cd /verif/lean && lake build %s driver && lake env lean <#print axioms audit>" % " ".join(modules)
+    cov["checker_cmd"] = "cd /verif/lean && lake build %s && lake env lean <#print axioms of every listed theorem> && forbidden-token grep" % " ".join(modules)
     cov["theorems"] = theorems
     if not ok:
         cov["discharged"] = 0
@@ -212,19 +240,19 @@ def prove(res, modules, theorems, gen_files=()):
 
 def correspond(res, prop, extra_args=()):
     """Run harness → ops/impl, driver → model. Returns (ops, impl, model) line lists, stats."""
-    ok, out = build_harness()
+    ok, out = build_harness(prop)
     if not ok:
         return None, "harness does not build against /repo's current tree:\n" + out[-4000:]
     rundir = os.path.join(BUILD, "run", "%s-%s-%d" % (prop, res.tier, os.getpid()))
     shutil.rmtree(rundir, ignore_errors=True)
     os.makedirs(rundir)
     env = goenv(); env["GOMEMLIMIT"] = "8GiB"
-    rc, out = run([HARNESS_BIN, prop.lower(), "-seed", str(res.seed), "-tier", res.tier, "-out", rundir] + list(extra_args),
+    rc, out = run([harness_bin(prop), "-seed", str(res.seed), "-tier", res.tier, "-out", rundir] + list(extra_args),
                   env=env, timeout=7200)
     if rc != 0:
         return None, "harness failed (rc=%d):\n%s" % (rc, out[-4000:])
     with open(os.path.join(rundir, "ops.txt")) as fin, open(os.path.join(rundir, "model.txt"), "w") as fout:
-        rc, o2 = run([DRIVER], stdin=fin, stdout=fout, timeout=7200)
+        rc, o2 = run([driver_bin(prop)], stdin=fin, stdout=fout, timeout=7200)
     if rc != 0:
         return None, "driver failed rc=%d" % rc
     ops = open(os.path.join(rundir, "ops.txt")).read().split("\n")
